@@ -56,6 +56,7 @@ def run_family(ctx, name, behaviours, tags, server_flags=None, subcmd="run"):
     attributed_tids = {}
     prefix_tried = set()
     diff_tried = set()
+    unqueued = {v["tid"] for v in viols if v["tag"] == "UndoQueuesChange"}   # an undo that was not propagated: never explained away
     # RefEquiv / BuildEquiv first: a Converged violation of the same behaviour follows from them
     for v in sorted(viols, key=lambda v: (v["tid"], v["line"], v["tag"] in ("Converged", "ConvergedN"))):
         if v["tid"] in gcunsafe and v["tag"] in ("GCSafe", "SyncNeverFails", "Converged", "RefEquiv", "BuildEquiv", "BuildNeverFails") \
@@ -92,11 +93,11 @@ def run_family(ctx, name, behaviours, tags, server_flags=None, subcmd="run"):
                 kf = prefix_attribution(ctx, byid[v["tid"]], server_flags)
             if kf is None and len(prefix_tried) <= MINIMAL_BUDGET:
                 kf = minimal_attribution(ctx, byid[v["tid"]], server_flags)
-        if kf is None and v["tid"] not in attributed_tids and v["tid"] not in diff_tried \
+        if kf is None and v["tid"] not in attributed_tids and v["tid"] not in diff_tried and v["tid"] not in unqueued \
                 and v["tag"] in ("Converged", "RefEquiv", "ConvergedN", "RefEquivN") and v["tid"] in byid and subcmd == "run":
             diff_tried.add(v["tid"])
             if len(diff_tried) <= ATTRIBUTION_BUDGET:
-                kf = undo_gc_differential(ctx, byid[v["tid"]], evs, server_flags)
+                kf = undo_gc_differential(ctx, byid[v["tid"]], evs, server_flags, "ncontent" if v["tag"].endswith("N") else "content")
         if kf is None and v["tid"] in attributed_tids and v["tag"] in ("Converged", "RefEquiv", "BuildEquiv", "BuildNeverFails", "SyncNeverFails", "LogReplayable",
                                                                        "ConvergedN", "RefEquivN"):
             # a behaviour whose FIRST disagreement with the reference is explained by a listed finding: once the
@@ -116,7 +117,7 @@ def run_family(ctx, name, behaviours, tags, server_flags=None, subcmd="run"):
     return out
 
 
-def undo_gc_differential(ctx, b, evs, server_flags):
+def undo_gc_differential(ctx, b, evs, server_flags, field="ncontent"):
     """KF-UNDO-RESTORE-PEER-PURGED, amplified: a peer that had purged the tombstones re-creates the restored
     characters as other nodes than the undoing replica keeps; a later range operation then covers different
     nodes there and the contents differ by more than an order. Attributed only if ALL of this holds: the history
@@ -140,9 +141,13 @@ def undo_gc_differential(ctx, b, evs, server_flags):
             ref = e
     if ref is None:
         return None
-    bad = {c for c, r in last.items() if not r.get("pend") and (r.get("cp") or [None])[0] == ref["s"] and r.get("ncontent") != ref.get("ncontent")}
-    if not bad or (bad & undoers):
+    bad = {c for c, r in last.items() if not r.get("pend") and (r.get("cp") or [None])[0] == ref["s"] and r.get(field) != ref.get(field)}
+    if not bad:
         return None
+    # (an undo that is NOT propagated - the undoer holds content the log lacks - is judged by UndoQueuesChange at the
+    # undo itself and by the behaviour with GC off; the undoer may differ from the never-collecting reference here
+    # because it purged its own tombstones before undoing: KF-UNDO-TEXT-AFTER-GC)
+
     nb = json.loads(json.dumps(b))
     for st in nb["steps"]:
         if st["a"] == "attach":
@@ -614,7 +619,7 @@ def check_C11(ctx):
     return "model_checking", fresh, known, mc_cov(ctx), ["memdb backend only"]
 
 
-C15_TAGS = {"Converged", "RefEquiv", "SyncNeverFails", "UndoRedoNeverFails", "CloneEqRoot", "LogReplayable", "BuildEquiv"}
+C15_TAGS = {"Converged", "RefEquiv", "SyncNeverFails", "UndoRedoNeverFails", "UndoQueuesChange", "CloneEqRoot", "LogReplayable", "BuildEquiv"}
 
 
 def check_C15(ctx):
@@ -633,7 +638,7 @@ def check_C15(ctx):
     viols = sim_families(ctx, [f for f in fams if not f["name"].startswith("undo1p-")], C15_TAGS, n)
     # text and tree are compared as character/XML content, not as internal chunking (ConvergedN / RefEquivN)
     viols += sim_families(ctx, [f for f in fams if f["name"].startswith("undo1p-")],
-                          {"ConvergedN", "RefEquivN", "SyncNeverFails", "UndoRedoNeverFails", "CloneEqRoot", "LogReplayable"}, n)
+                          {"ConvergedN", "RefEquivN", "SyncNeverFails", "UndoRedoNeverFails", "UndoQueuesChange", "CloneEqRoot", "LogReplayable"}, n)
     # small-scope exhaustive: every program of two edits with every well-nested undo/redo sequence of length <= 4 in and after it
     # on one client, then the quiescent syncs: whatever undo/redo did (also when it did nothing) must reach the peer
     total = 0
@@ -643,7 +648,7 @@ def check_C15(ctx):
         total += len(steps)
         steps = sample(ctx, steps, cap if quick else 4 * cap)
         behs = [wrap(st, "exh-prop-%s-%d" % (typ, i), nclients=2, kinds=extra["kinds"], init=extra["init"], family="exh-prop-" + typ) for i, st in enumerate(steps)]
-        viols += run_family(ctx, "exh-prop-" + typ, behs, {"SyncNeverFails", "ConvergedN", "RefEquivN", "UndoRedoNeverFails", "LogReplayable", "CloneEqRoot"})
+        viols += run_family(ctx, "exh-prop-" + typ, behs, {"SyncNeverFails", "ConvergedN", "RefEquivN", "UndoRedoNeverFails", "UndoQueuesChange", "LogReplayable", "CloneEqRoot"})
     ctx.samples.append({"family": "exh-prop", "behaviours_enumerated_by_tlc": total})
     if ctx.counters.get("undos", 0) == 0:
         raise Infra("vacuous: no undo executed")
